@@ -142,7 +142,7 @@ def run(ctx):
                             if len(defs) == 1 and any(t_[0] == 'call' and t_[1].endswith('::integrate') and 'last_update_' in repr(t_[3]) and 'now' in repr(t_[3]) for t_ in ex.subterms(defs[0])):
                                 times.append('integral over [last_update_, now]')
                                 amounts = [a_ for a_ in amounts if a_ != x]
-                    ok = len(times) == 1 and times[0] is not None and len(amounts) == len(fac) - 1 and not neg
+                    ok = len(times) == 1 and times[0] is not None and len(amounts) == len(fac) - 1 and not neg and (len(amounts) >= 1 or times[0].startswith('integral'))
                     detail = 'factors %s' % [ex.pretty(x) if x[0] != 'div' else '/' + ex.pretty(x[1]) for x in fac]
                 elif not whole:
                     detail = '%s is not a product of an amount and the elapsed time' % ex.pretty(arg)
@@ -153,6 +153,45 @@ def run(ctx):
                 ok = arg in (('int', 0), ('float', 0.0)) or (arg[0] == 'call' and arg[1].endswith('::get_remains')) or f['file'].endswith('network_ns3.cpp')
                 ctx.check(ok, 'R2', '%s: set_remains(%s)' % (short, ex.pretty(arg)[:60]), where(f, e.line), '' if ok else 'the remaining work is set to an arbitrary amount', key='R2|%s|set_remains' % short)
     ctx.require(n2 >= 8, 'R2', 'only %d update_remains/set_remains sites found' % n2)
+
+    # the subtraction itself: update_remains hands its parameter, unchanged, to double_update
+    ur = P.fn(K + 'Action::update_remains')
+    urv = A.view(ur)
+    dus = [e for e in all_events(A, ur) if e.kind == 'call' and e.q == 'double_update' and len(e.args) >= 2]
+    okarg = len(dus) == 1 and strip(dus[0].args[1]) == lib.parm_i(ur, 0)
+    ctx.check(okarg, 'R2', 'Action::update_remains subtracts exactly the amount it is given', where(ur), 'double_update(&remains_, %s, ...)' % (ex.pretty(dus[0].args[1]) if dus else '?'),
+              key='R2|Action::update_remains|amount passed on')
+    # lazy accounting: the elapsed interval [last update, now] is debited at the rate that was in force during it (the saved last value), then both are refreshed
+    nlz = 0
+    for f in sorted(P.fns.values(), key=lambda f_: f_['key']):
+        if not f.get('blocks') or not f['q'].endswith('::update_remains_lazy') or 'CpuTi' in f['q']:
+            continue
+        fv = A.view(f)
+        debits = [e for e in all_events(A, f) if e.kind == 'call' and e.q == K + 'Action::update_remains']
+        if not debits:
+            continue
+        nlz += 1
+        short = f['q'].replace(K, '')
+        fac = product_factors(strip(debits[0].args[0])) or []
+        rate = [x for x in fac if x[0] == 'call' and x[1].rsplit('::', 1)[-1] in ('get_rate', 'get_last_value')]
+        ctx.check(len(rate) == 1 and rate[0][1].endswith('::get_last_value'), 'R2', '%s debits the elapsed interval at the saved rate (get_last_value())' % short, where(f, debits[0].line),
+                  'rate factor: %s' % [ex.pretty(x) for x in rate] + ('' if rate and rate[0][1].endswith('::get_last_value') else ': the current rate only holds from now on'), key='R2|%s|saved rate' % short)
+        okref = None
+        for p in fv.paths(max_visits=1):
+            if p.exit in ('noreturn', 'cut', 'throw'):
+                continue
+            evs = fv.path_events(p)
+            early = not any(e.kind == 'call' and e.q.endswith('::set_last_value') for e in evs) and not any(e.kind == 'assign' and 'delta' in repr(e.lhs) for e in evs)
+            if early:
+                continue        # the action is not running: nothing is accounted
+            lu = [i for i, e in enumerate(evs) if e.kind == 'call' and e.q.endswith('::set_last_update')]
+            lv = [i for i, e in enumerate(evs) if e.kind == 'call' and e.q.endswith('::set_last_value') and e.args and 'get_rate' in repr(e.args[0])]
+            db = [i for i, e in enumerate(evs) if e.kind == 'call' and e.q == K + 'Action::update_remains']
+            good = len(lu) == 1 and len(lv) == 1 and (not db or (db[-1] < lu[0] and db[-1] < lv[0]))
+            okref = good if okref is None else (okref and good)
+        ctx.check(bool(okref), 'R2', '%s refreshes the last update date and the saved rate after the debit, on every accounting path' % short, where(f),
+                  '' if okref else 'the same interval is debited again at the next update, or at a stale rate', key='R2|%s|refresh after debit' % short)
+    ctx.require(nlz >= 2, 'R2', 'only %d lazy accountants found' % nlz)
 
     # ---- R3 ---------------------------------------------------------------------------------------------------------------------------------
     ctx.rule('R3', 'update loops: finish(FINISHED) iff (remains <= 0 and not suspended) or (max duration set and exhausted)', 5)
